@@ -126,6 +126,9 @@ pub struct World {
     pub fork_epoch: u64,
     /// per simulated thread: alloc_slow_inline iterations of the allocation in progress
     pub alloc_slow_iters: BTreeMap<usize, u64>,
+    /// per simulated thread, for the allocation in progress: (acquire calls that returned no pages
+    /// without asking the page resource, acquire calls whose page resource request failed)
+    pub acquire_fails: BTreeMap<usize, (u64, u64)>,
     pub used_after_gc: Vec<(u64, usize, usize)>,
     /// ephemeron table: (key id, value id), with their current raw addresses
     pub ephemerons: Vec<Ephemeron>,
@@ -137,6 +140,8 @@ pub struct World {
     /// Objects in never-collected spaces that became unreachable (still must stay intact).
     pub immortal_dead: BTreeSet<u64>,
     pub oom_events: Vec<(usize, u64, u64)>, // (tls, step, pauses_done)
+    /// event histories of the property-specific oracles (oracle2.rs)
+    pub hist: crate::oracle2::Hist,
     pub blocked_for_gc: [bool; MAX_MUT],
     pub gc_requests: BTreeMap<usize, (u64, u64)>, // mid -> (step, pauses_done at request)
     pub recent: VecDeque<String>,
@@ -711,6 +716,16 @@ pub fn on_out_of_memory(tls: usize, kind: AllocationError) {
             AllocationError::MmapOutOfMemory => "oom_mmap",
         });
         w.oom_events.push((tls, step, w.pauses_done));
+        if w.spec.cfg.reclaim_cycles && matches!(kind, AllocationError::HeapOutOfMemory) {
+            violation(
+                "C09",
+                "oom-in-reclaimable-program",
+                format!(
+                    "out_of_memory after {} pauses although the program never holds more than a fixed fraction of the heap (used after GCs with nothing live: {:?})",
+                    w.pauses_done, w.hist.empty_heap_used
+                ),
+            );
+        }
     });
     if matches!(kind, AllocationError::MmapOutOfMemory) {
         // The documented contract: the VM is expected to abort.  The run ends here, cleanly.
